@@ -11,13 +11,16 @@ def run(repo, res, tier):
         "(checked per reader class with shortest witnesses); S2 the same for parameter and block names (language of "
         "keys that pass encode_assignment / encode_aggregation_block vs Token.is_parameter_name); W1 no text with "
         "significant white space reaches textwrap.wrap (taint of quoted text through encode_assignment; wrap flags); "
-        "D1 isinstance dispatch (subclass before superclass, a branch per loader type, numbers via str()). "
+        "LEX1 number texts as str() writes them and date/times are lexed as one token (language model of the end-of-lexeme decision); D1 isinstance dispatch (subclass before superclass, a branch per loader type, numbers via str()). "
         "R1-R4: the writer of temporal values consumes every field, can write both offset signs, pads fractions, and writes only zone suffixes its reader accepts. Not decided: equality of values, float text exactness, option combinations as such.")
     res.assumptions = ["int()/float()/strptime acceptance models", "dateutil absent"]
     an = langrules.analyse(repo)
     langrules.rule_s1(repo, res, an, "own")
     langrules.rule_s2(repo, res, an)
     langrules.rule_q1(repo, res, an)
+    # the text str() gives a number (1E+3 for Decimal, 1e-07 for float) and the zone-offset times the ODL encoder
+    # writes must be lexed as one token, or the value is not read back
+    langrules.rule_lex1(repo, res, an, kinds=("number as str() writes it", "date/time"))
     encrules.rule_w1(repo, res, which=("quoted", "flags"))
     encrules.rule_d1(repo, res)
     timerules.rule_r(repo, res)
